@@ -240,8 +240,9 @@ def build(case, root, rng):
     import onnx
     from onnxscript import ir
 
-    style = rng.choice(["abs", "abs", "pathlib", "rel", "dots", "nested"])
-    mname = {"dots": "net.v2.onnx", "nested": os.path.join("out", "m.onnx")}.get(style, "m.onnx")
+    # the model file's format follows its extension (ir.save / ir.load): text formats and no extension are legal paths too
+    style = rng.choice(["abs", "abs", "pathlib", "rel", "dots", "nested", "textproto", "noext", "json"])
+    mname = {"dots": "net.v2.onnx", "nested": os.path.join("out", "m.onnx"), "textproto": "m.textproto", "noext": "m", "json": "m.json"}.get(style, "m.onnx")
     mdir = os.path.join(root, os.path.dirname(mname))
     os.makedirs(mdir, exist_ok=True)
     dname = mname + ".data"
